@@ -151,6 +151,8 @@ func c12Main(specBytes []byte) {
 				x.silent()
 			case "longidle":
 				x.longIdle()
+			case "copen":
+				x.concurrentOpens()
 			}
 			x.res.Ms = time.Since(t0).Milliseconds()
 			Emit(x.res)
@@ -1701,4 +1703,119 @@ func (x *c12Exec) longIdle() {
 		x.b.forget(s.token)
 	}
 	x.probe(fmt.Sprintf("%d s of backend silence", secs))
+}
+
+// ------------------------------------------------------------ overlapping opens
+
+// concurrentOpens: Rep open calls are in flight at the same time - the
+// backend answers none of the upgrades before all handshakes have arrived.
+// Every open must be answered; the sessions they return must be pairwise
+// distinct; each session carries a message to its own backend connection and
+// one back; each close is answered 200 and closes its backend websocket, so
+// that no backend connection is left open.
+func (x *c12Exec) concurrentOpens() {
+	n := x.c.Rep
+	if n < 2 {
+		n = 2
+	}
+	type oc struct {
+		token string
+		p     *shimPending
+		s     *c12Sess
+	}
+	group := x.c.ID
+	var ocs []*oc
+	for i := 0; i < n; i++ {
+		x.nTok++
+		o := &oc{token: fmt.Sprintf("%s-%d", x.c.ID, x.nTok)}
+		hdr := [][2]string{{"X-Verif-Conn", o.token}, {"X-Websocket-Shim-Version", "1"}, {"X-Verif-Hold", fmt.Sprintf("%s;%d", group, n)}}
+		o.p = shimStart(x.h, nil, "", shimReq("open", hdr, []byte(fmt.Sprintf("/ws/%s?n=%d", o.token, i))))
+		ocs = append(ocs, o)
+	}
+	ids := map[string]string{}
+	var st []string
+	for i, o := range ocs {
+		a := o.p.wait(c12Bound("open"))
+		x.judge("open", fmt.Sprintf("open %d of %d overlapping opens", i+1, n), "", a)
+		st = append(st, fmt.Sprint(a.Status))
+		if !a.Answered || a.Status != 200 {
+			continue
+		}
+		var r shimOpenResp
+		if json.Unmarshal(a.Body, &r) != nil || r.ID == "" {
+			continue
+		}
+		bc := x.b.conn(o.token)
+		if bc == nil {
+			continue
+		}
+		o.s = &c12Sess{id: r.ID, token: o.token, bc: bc}
+		if other, dup := ids[r.ID]; dup {
+			x.violate("C12:duplicate-session-id", fmt.Sprintf("%d opens whose backend handshakes overlapped: the opens behind backend connections %s and %s were both answered 200 with session id %s", n, other, o.token, r.ID))
+		}
+		ids[r.ID] = o.token
+	}
+	x.res.Statuses = "open=" + strings.Join(st, ",")
+	x.step(c12Step{Op: "overlapping-opens", Note: fmt.Sprintf("%d opens, ids %v", n, ids)})
+	// each session talks to its own backend connection, both ways
+	for i, o := range ocs {
+		if o.s == nil {
+			continue
+		}
+		payload := fmt.Sprintf("hello from the client of %s", o.token)
+		d := x.call("data", fmt.Sprintf("data(session %s of overlapping open %d)", o.s.id, i+1), "", nil, c12DataBody(o.s.id, payload))
+		if d.Answered && d.Status == 200 {
+			if !o.s.bc.waitRecv(func(r []shimMsg) bool { return len(r) >= 1 }, 10*time.Second*time.Duration(c12Scale)) {
+				x.violate("C12:overlapping-opens:cross-wired", fmt.Sprintf("the message posted on session %s (returned by the open behind backend connection %s) never reached that connection", o.s.id, o.token))
+			}
+		}
+		for _, m := range o.s.bc.received() {
+			if string(m.D) != payload {
+				x.violate("C12:overlapping-opens:cross-wired", fmt.Sprintf("backend connection %s received %q, which was posted for another session", o.token, shimTrunc(string(m.D), 80)))
+			}
+		}
+		back := shimMsg{websocket.TextMessage, []byte("hello from the backend of " + o.token)}
+		o.s.bc.send(back)
+		p := x.call("poll", fmt.Sprintf("poll(session %s of overlapping open %d, 1 pending)", o.s.id, i+1), "", nil, shimIDBody(o.s.id))
+		if p.Answered && p.Status == 200 {
+			ms, _ := shimDecodePoll(p.Body, 1)
+			for _, m := range ms {
+				if c11Same(back, m) != "" {
+					x.violate("C12:overlapping-opens:cross-wired", fmt.Sprintf("the poll of session %s (backend connection %s) delivered %q, which another backend connection sent", o.s.id, o.token, shimTrunc(string(m.D), 80)))
+				}
+			}
+		}
+	}
+	// each close closes its own backend websocket
+	for i, o := range ocs {
+		if o.s == nil {
+			continue
+		}
+		c := x.call("close", fmt.Sprintf("close(session %s of overlapping open %d)", o.s.id, i+1), "", nil, shimIDBody(o.s.id))
+		if c.Answered && c.Panic == "" && c.Status != 200 {
+			x.violate(fmt.Sprintf("C12:overlapping-opens:close-answered-%d", c.Status), fmt.Sprintf("session %s was returned by an open answered 200 and never closed, yet its close answered %d %s", o.s.id, c.Status, shimTrunc(string(c.Body), 100)))
+		}
+	}
+	left := 0
+	for _, o := range ocs {
+		if o.s == nil {
+			continue
+		}
+		if len(ids) < n || c12Missed("backend-not-closed") { // sessions already known to be mixed up: no point in waiting out the bound
+			if !o.s.bc.waitClosed(30 * time.Millisecond) {
+				x.res.Unjudged++
+			}
+		} else if !o.s.bc.waitClosed(10 * time.Second * time.Duration(c12Scale)) {
+			left++
+			c12NoteMiss("backend-not-closed")
+		} else {
+			x.res.CloseSeen++
+		}
+		x.b.forget(o.token)
+	}
+	if left > 0 {
+		x.res.NoAnswer = append(x.res.NoAnswer, "backend-close-observation")
+		x.violate("C12:backend-not-closed", fmt.Sprintf("%d overlapping opens, every returned session closed: %d backend websocket(s) still open 10s later", n, left))
+	}
+	x.probe(fmt.Sprintf("%d overlapping opens", n))
 }
